@@ -322,4 +322,5 @@ def run(prog, rep):
     # blocks only if every table change is also written to its slot (C10's pairing, a necessary condition here)
     rep.attempt(M.dirty_entry, ct, rep, rule="table-pairing")
     rep.attempt(M.slot_position, ct, rep, rule="table-pairing/slot")
+    rep.attempt(M.parse_on_enter, ct, rep)
     rep.not_decided += ["accessor agreement on concrete histories (follows from C10's pairing, not re-proved)"]
